@@ -22,7 +22,8 @@ rand    `-` or `<seed>:<d,d,…>` raw Int63 draws of math/rand after Seed(seed)
         own max_requests (0 = none) and what its backend does: `o` answers, `d` dial error, `e` other error.
         script = events joined by `,`: `h`/`H` a GET/POST request arrives and, once proxied, is held in flight
         at the backend, `q`/`Q` a GET/POST request arrives and completes, `f<k>` the k-th held request
-        (0-based) completes. answer `<o>,<o>,… c=<counter|-> n=<in flight per address|-> f=<fails per address|->`,
+        (0-based) completes, `T`/`U` the handler's circuit breaker (configured by a fifth `:1` in the
+        settings) opens / closes. answer `<o>,<o>,… c=<counter|-> n=<in flight per address|-> f=<fails per address|->`,
         o for a request = failed attempts `<i>!` / `-` (Select returned nil) and the end `<i>` | `503` | `502`,
         joined by `/`; o for `f<k>` = `ok` | `-`
 
@@ -185,6 +186,8 @@ def parseEv (s : String) : Option Ev :=
   | ['q'] => some (.arrive false true)
   | ['H'] => some (.arrive true false)
   | ['Q'] => some (.arrive false false)
+  | ['T'] => some .trip
+  | ['U'] => some .untrip
   | 'f' :: ks => (num 64 (String.ofList ks)).map .fin
   | _ => none
 
@@ -193,6 +196,7 @@ def scriptOK : List Ev → Nat → Bool
   | [], _ => true
   | .arrive hold _ :: es, n => scriptOK es (if hold then n + 1 else n)
   | .fin k :: es, n => decide (k < n) && scriptOK es n
+  | _ :: es, n => scriptOK es n
 
 /-- the policies the proxy-loop cases use (no hash, cookie or weighted policies) -/
 def proxyPolicy : Policy → Bool
@@ -222,7 +226,7 @@ def parsePUp (s : String) : Option PUp :=
 def parsePUps (s : String) : Option (List PUp) :=
   if s == "-" then some [] else (s.splitOn ",").mapM parsePUp
 
-/-- `<unhealthy_request_count>:<fail_duration 0|1>:<max_fails>:<lb_retries>` -/
+/-- `<unhealthy_request_count>:<fail_duration 0|1>:<max_fails>:<lb_retries>[:<circuit breaker 0|1>]` -/
 def parsePCfg (dyn : Bool) (s : String) (ups : List PUp) : Option PCfg :=
   match s.splitOn ":" with
   | [m, fd, mf, r] => do
@@ -231,7 +235,16 @@ def parsePCfg (dyn : Bool) (s : String) (ups : List PUp) : Option PCfg :=
     let fd ← fd
     let mf ← num 1000 mf
     let r ← num 8 r
-    pure ⟨dyn, m, fd, mf, r, ups⟩
+    pure ⟨dyn, m, fd, mf, r, ups, false⟩
+  | [m, fd, mf, r, cb] => do
+    let m ← num 1000 m
+    let fd ← optBool fd
+    let fd ← fd
+    let mf ← num 1000 mf
+    let r ← num 8 r
+    let cb ← optBool cb
+    let cb ← cb
+    pure ⟨dyn, m, fd, mf, r, ups, cb⟩
   | _ => none
 
 def showFinal : Final → String
